@@ -3,6 +3,7 @@
  * LD_PRELOAD=shim_c02_locale.so C02_LOCALE_HOSTILE=1).  Prints one line; the expected text is in the check.
  */
 #include <ctype.h>
+#include <fnmatch.h>
 #include <locale.h>
 #include <stdio.h>
 #include <stdlib.h>
@@ -15,11 +16,13 @@ int main(void)
 	time_t t = 0;
 	struct tm tm;
 	int before = strcoll("A", "b") < 0, ci_before = strcasecmp("I", "i") == 0;
+	int fn_before = (fnmatch("[a-z]*", "Zeta", 0) == 0) * 2 + (fnmatch("*_[x-z]*", "f01_Y", 0) == 0);
 	const char *l = setlocale(LC_ALL, "");
 	int after = strcoll("A", "b") < 0, punct = strcoll("a-b", "ab") == 0 || strcoll("a-b", "ab") != strcmp("a-b", "ab");
+	int fn_after = (fnmatch("[a-z]*", "Zeta", 0) == 0) * 4 + (fnmatch("*_[x-z]*", "f01_Y", 0) == 0) * 2 + (fnmatch("[[:upper:]]*", "zeta", 0) == 0);
 	localtime_r(&t, &tm);
-	printf("before=%d ci_before=%d locale=%s after=%d punct=%d ci_after=%d lowerI=%d alphaE9=%d dp=%s hour=%d min=%d tz=%s\n", before, ci_before,
+	printf("before=%d ci_before=%d locale=%s after=%d punct=%d ci_after=%d lowerI=%d alphaE9=%d dp=%s hour=%d min=%d tz=%s fn=%d%d\n", before, ci_before,
 	       l ? l : "NULL", after, punct, strcasecmp("I", "i") == 0, tolower('I'), isalpha(0xE9) != 0, localeconv()->decimal_point,
-	       tm.tm_hour, tm.tm_min, getenv("TZ") ? getenv("TZ") : "-");
+	       tm.tm_hour, tm.tm_min, getenv("TZ") ? getenv("TZ") : "-", fn_before, fn_after);
 	return 0;
 }
